@@ -1,6 +1,7 @@
 """Handles state variable access and change notification."""
 
 import asyncio
+import copy
 from datetime import datetime
 import logging
 from typing import Any, ClassVar, Self
@@ -34,7 +35,8 @@ class StateVal(str):
     def __new__(cls, state: CoreState) -> Self:
         """Create a new instance given a state variable."""
         new_var = super().__new__(cls, state.state)
-        new_var.__dict__ = state.attributes.copy()
+        # a deep copy: the snapshot mustn't share lists or dicts with the state hass stores
+        new_var.__dict__ = copy.deepcopy(dict(state.attributes))
         new_var.entity_id = state.entity_id
         new_var.last_updated = state.last_updated
         new_var.last_changed = state.last_changed
@@ -261,6 +263,11 @@ class State:
             new_attributes = new_attributes.copy()
             new_attributes.update(kwargs)
 
+        #
+        # hass keeps the dict it is given: don't let it share lists or dicts with the caller
+        #
+        new_attributes = copy.deepcopy(dict(new_attributes))
+
         _LOGGER.debug("setting %s = %s, attr = %s", var_name, value, new_attributes)
         cls.hass.states.async_set(var_name, value, new_attributes, context=context)
         if var_name in cls.notify_var_last or var_name in cls.notify:
@@ -438,7 +445,7 @@ class State:
     def getattr(cls, var_name):
         """Return a dict of attributes for a state variable."""
         if isinstance(var_name, StateVal):
-            attrs = var_name.__dict__.copy()
+            attrs = copy.deepcopy(var_name.__dict__)
             for discard in STATE_VIRTUAL_ATTRS:
                 attrs.pop(discard, None)
             return attrs
@@ -447,7 +454,7 @@ class State:
         value = cls.hass.states.get(var_name)
         if not value:
             return None
-        return value.attributes.copy()
+        return copy.deepcopy(dict(value.attributes))
 
     @classmethod
     def get_attr(cls, var_name):
